@@ -264,8 +264,11 @@ func (s *Streamer) parseEvents(ctx context.Context, events <-chan replication.Bi
 			_log.Debugf("parseEvents pos: %+v binlog event is a table map event, tableID: %v table map: %+v",
 				pos, tableID, *tm)
 
-			if _, ok = tablesMaps[tableID]; ok {
-				tablesMaps[tableID].tableMap = tm
+			// A table id that is announced again for the same table keeps its
+			// table info; one announced for another table is looked up again.
+			if tc, ok := tablesMaps[tableID]; ok &&
+				tc.tableMap.Database == tm.Database && tc.tableMap.Name == tm.Name {
+				tc.tableMap = tm
 				continue
 			}
 
